@@ -463,6 +463,9 @@ class ActiveTagValueProvider(UserDict):
 
     @staticmethod
     def use_value(value):
+        if value is Unknown:
+            # -- KEEP: Placeholder for an unknown category (the class is callable).
+            return value
         if callable(value):
             # -- RE-EVALUATE VALUE: Each time
             value_func = value
